@@ -10,7 +10,7 @@
 (*      uses the Luau-only backslash-u{...} escape, i.e. unless s is valid UTF-8 with a non-ASCII character).            *)
 (*  (2) The families of byte strings and doubles the property quantifies over                *)
 (*      (enumerated by MC_Literals).                                                         *)
-EXTENDS LuaLex, Bytes, Integers, Sequences
+EXTENDS LuaLex, Bytes, Integers, Sequences, IOUtils
 \* ------------------------------------------------------------------ UTF-8 (Rust str::from_utf8)
 IsCont(x) == x >= 128 /\ x <= 191
 RECURSIVE Utf8Cps(_, _, _)
@@ -47,11 +47,14 @@ Pad3(n) == <<48 + (n \div 100), 48 + ((n \div 10) % 10), 48 + (n % 10)>>
 HexDigit(d) == IF d < 10 THEN 48 + d ELSE 87 + d
 RECURSIVE HexDigits(_)
 HexDigits(n) == IF n < 16 THEN <<HexDigit(n)>> ELSE Append(HexDigits(n \div 16), HexDigit(n % 16))
+\* MUTATE_NOPAD=1 in the environment seeds a mutant of `escape` (no three-digit padding before a digit); it exists only to
+\* demonstrate that the theorem and the conformance check bind and is unset in every real run.
+MutantNoPad == "MUTATE_NOPAD" \in DOMAIN IOEnv /\ IOEnv.MUTATE_NOPAD = "1"
 \* escape(character, next_character): next = -1 when there is none
 Escape(c, next) ==
   CASE c = 10 -> <<92, 110>> [] c = 9 -> <<92, 116>> [] c = 92 -> <<92, 92>> [] c = 13 -> <<92, 114>>
     [] c = 7 -> <<92, 97>> [] c = 8 -> <<92, 98>> [] c = 11 -> <<92, 118>> [] c = 12 -> <<92, 102>>
-    [] OTHER -> IF next >= 48 /\ next <= 57 THEN <<92>> \o Pad3(c) ELSE <<92>> \o DecDigits(c)
+    [] OTHER -> IF next >= 48 /\ next <= 57 /\ ~MutantNoPad THEN <<92>> \o Pad3(c) ELSE <<92>> \o DecDigits(c)
 QuoteSymbol(s) == IF \E k \in 1..Len(s) : s[k] = 34 THEN 39 ELSE IF \E k \in 1..Len(s) : s[k] = 39 THEN 34 ELSE 39
 RECURSIVE QuotedCps(_, _, _), QuotedBytes(_, _, _)
 \* valid UTF-8: the loop runs over chars; `next_character.map(|c| c as u8)` truncates the next char to its low byte
